@@ -51,13 +51,14 @@ NONE = ("const", None)
 
 
 class Effect:
-    __slots__ = ("kind", "a", "b", "c", "node", "maybe")
+    __slots__ = ("kind", "a", "b", "c", "node", "maybe", "origin")
 
     def __init__(self, kind, a=None, b=None, c=None, node=None, maybe=False):
         self.kind = kind  # call | store_sub | store_attr | loop | with | del | assert
         self.a, self.b, self.c = a, b, c
         self.node = node
         self.maybe = maybe  # evaluated conditionally inside an expression
+        self.origin = None  # FunctionInfo the effect was inlined from (None: the analysed function itself)
 
     @property
     def lineno(self):
@@ -107,6 +108,8 @@ class Path:
     def fork(self):
         p = Path(dict(self.env), list(self.conds), list(self.effects))
         p.result = self.result
+        p._choices = list(getattr(self, "_choices", ()))
+        p._cpos = getattr(self, "_cpos", 0)
         return p
 
     @property
@@ -175,6 +178,12 @@ class Path:
 
     def feasible(self):
         """False when the same atom is decided both ways (a syntactically infeasible path)."""
+        if getattr(self, "_feasible", None) is not None:
+            return self._feasible
+        r = self.possible()
+        if r is not None:
+            self._feasible = r
+            return r
         seen = {}
         equal_to = {}
         for t, pol in self.atoms():
@@ -200,6 +209,107 @@ class Path:
                         prev = equal_to.setdefault(x, k)
                         if prev != k:
                             return False
+        return True
+
+    # --- propositional reasoning over the branch decisions ---------------
+    @staticmethod
+    def _norm_atom(t):
+        """Return (atom, negated) with `not`, `is not`, `!=`, `not in` folded away."""
+        neg = False
+        while isinstance(t, tuple) and t[0] == "unop" and t[1] == "not":
+            t, neg = t[2], not neg
+        if isinstance(t, tuple) and t[0] == "compare" and len(t[1]) == 1 and t[1][0] in ("is not", "!=", "not in"):
+            flip = {"is not": "is", "!=": "==", "not in": "in"}
+            t, neg = ("compare", (flip[t[1][0]],), t[2]), not neg
+        return t, neg
+
+    @classmethod
+    def _atoms_of(cls, t, out):
+        t, _ = cls._norm_atom(t)
+        if isinstance(t, tuple) and t[0] == "boolop":
+            for x in t[2]:
+                cls._atoms_of(x, out)
+        elif t not in out:
+            out.append(t)
+
+    @classmethod
+    def _eval(cls, t, asg):
+        t, neg = cls._norm_atom(t)
+        if isinstance(t, tuple) and t[0] == "boolop":
+            vals = [cls._eval(x, asg) for x in t[2]]
+            v = all(vals) if t[1] == "and" else any(vals)
+        elif t[0] == "const":
+            v = bool(t[1])
+        else:
+            v = asg[t]
+        return (not v) if neg else v
+
+    def possible(self, assume=None, limit=16):
+        """Is there a truth assignment to the atomic conditions under which every branch decision of
+        this path has the polarity it took AND every term of `assume` has the given truth value?
+        Unit decisions are propagated first; only atoms occurring in undecided compound conditions are
+        enumerated (truth table).  None if too many atoms remain."""
+        fixed = {}
+        compound = []
+        todo = [(t, pol) for t, pol, _ in self.conds if not (isinstance(t, tuple) and t[0] in ("inloop", "loopbreak", "except"))]
+        todo += list((assume or {}).items())
+        while todo:
+            t, pol = todo.pop()
+            t, neg = self._norm_atom(t)
+            if neg:
+                pol = not pol
+            if isinstance(t, tuple) and t[0] == "boolop":
+                if (t[1] == "and" and pol) or (t[1] == "or" and not pol):
+                    todo.extend((x, pol) for x in t[2])
+                else:
+                    compound.append((t, pol))
+                continue
+            if t[0] == "const":
+                if bool(t[1]) != pol:
+                    return False
+                continue
+            if fixed.setdefault(t, pol) != pol:
+                return False
+        if not self._atoms_consistent(fixed):
+            return False
+        free = []
+        for t, pol in compound:
+            self._atoms_of(t, free)
+        free = [a for a in free if a not in fixed and a[0] != "const"]
+        if not compound:
+            return True
+        if len(free) > limit:
+            return None
+        import itertools as _it
+        for bits in _it.product((False, True), repeat=len(free)):
+            asg = dict(fixed)
+            asg.update(zip(free, bits))
+            if not self._atoms_consistent(asg):
+                continue
+            if all(self._eval(t, asg) == pol for t, pol in compound):
+                return True
+        return False
+
+    @staticmethod
+    def _atoms_consistent(asg):
+        eq = {}
+        for a, v in asg.items():
+            if a[0] != "compare" or len(a[1]) != 1:
+                continue
+            op = a[1][0]
+            if op in ("is", "==") and len(a[2]) == 2:
+                x, k = a[2]
+                if x[0] == "const" and k[0] == "const":
+                    if (x[1] == k[1]) != v:
+                        return False
+                    continue
+                if op == "is" and k == ("const", None) and v and (_never_none_call(x) or x[0] in ("list", "tuple", "dict", "set", "binop", "fstr", "comp", "lambda")):
+                    return False
+                if v:
+                    for y, c in ((x, k), (k, x)):
+                        if _constant_like(c) and not _constant_like(y):
+                            if eq.setdefault(y, c) != c:
+                                return False
         return True
 
     def describe(self):
@@ -292,9 +402,11 @@ class Evaluator:
 
     _uid = itertools.count(1)
 
-    def __init__(self, program, fn):
+    def __init__(self, program, fn, inline_stack=(), analysis=None):
         self.p = program
         self.fn = fn
+        self.inline_stack = tuple(inline_stack)
+        self.analysis = analysis
         self.module = fn.module
         node = fn.node
         self.locals = set(fn.params) | set(fn.kwonly)
@@ -347,6 +459,31 @@ class Evaluator:
         return paths
 
     def stmt(self, st, p, loops):
+        """Evaluate one statement on path p.  Inlined calls with several callee paths fork the
+        caller: the statement is re-evaluated from a snapshot once per choice vector."""
+        results = []
+        pending = [()]
+        rounds = 0
+        while pending:
+            choices = pending.pop()
+            rounds += 1
+            if rounds > 4000:
+                raise AnalysisError("inlining explosion in %s" % self.fn.qualname)
+            q = p.fork()
+            q._choices = list(choices)
+            q._cpos = 0
+            try:
+                out = self._stmt(st, q, loops)
+            except _NeedChoice as nc:
+                for i in reversed(range(nc.k)):
+                    pending.append(tuple(choices) + (i,))
+                continue
+            except _PathEnded as pe:
+                out = [pe.path]
+            results.extend(out)
+        return results
+
+    def _stmt(self, st, p, loops):
         if isinstance(st, (ast.Assign, ast.AnnAssign, ast.Return, ast.Expr, ast.AugAssign)):
             split = split_ifexp(st)
             if split is not None:
@@ -369,10 +506,18 @@ class Evaluator:
     s_ImportFrom = s_Global = s_Nonlocal = s_Import
 
     def s_FunctionDef(self, st, p, loops):
-        p.env[st.name] = ("unknown", "nested def %s" % st.name)
+        body = [x for x in st.body if not (isinstance(x, ast.Expr) and isinstance(x.value, ast.Constant))]
+        if len(body) == 1 and isinstance(body[0], ast.Return) and body[0].value is not None and not st.decorator_list:
+            lam = ast.Lambda(args=st.args, body=body[0].value)
+            ast.copy_location(lam, st)
+            p.env[st.name] = self.expr(lam, p)
+        else:
+            p.env[st.name] = ("unknown", "nested def %s" % st.name)
         return [p]
 
-    s_ClassDef = s_FunctionDef
+    def s_ClassDef(self, st, p, loops):
+        p.env[st.name] = ("unknown", "nested class %s" % st.name)
+        return [p]
 
     def s_Assert(self, st, p, loops):
         t = self.expr(st.test, p)
@@ -523,6 +668,10 @@ class Evaluator:
             if n in self.locals:
                 p.env[n] = ("loopout", n, uid)
         has_break = any(bp.result is not None and bp.result[0] == "break" for bp in bpaths)
+        if kind == "for":
+            self._accumulator_as_comprehension(st, info, p, pre)
+        if kind == "while" and info.test is not None and info.test[0] == "const" and info.test[1] and not has_break:
+            return out  # `while True:` without break never completes normally
         if st.orelse:
             if has_break:
                 q = p.fork()
@@ -534,7 +683,102 @@ class Evaluator:
             out.append(p)
         return out
 
+    def _accumulator_as_comprehension(self, st, info, p, pre):
+        """`for x in it: [if c:] acc.append(e)`  ==  acc.extend([e for x in it if c])  (acc += comprehension).
+        Normalises explicit accumulation loops and comprehensions to one form."""
+        uid = info.uid
+        for name, (pre_t, posts) in info.carried.items():
+            carried = ("carried", name, uid)
+            rows = []  # (conds, elt or None)
+            ok = True
+            for bp in info.body_paths:
+                if not bp.feasible():
+                    continue
+                if bp.result is not None and bp.result[0] != "continue":
+                    ok = False
+                    break
+                post = bp.env.get(name, carried)
+                if post == carried:
+                    elt = None
+                elif post[0] == "mut" and post[1] == carried and post[2] == "append" and len(post[3]) == 1:
+                    elt = post[3][0]
+                else:
+                    ok = False
+                    break
+                # the body may do nothing else that matters: no stores, no other mutation, no other carried variable
+                for e in bp.effects:
+                    if e.kind in ("store_sub", "store_attr", "store_global", "loop", "del"):
+                        ok = False
+                    if e.kind == "call" and e.a[1][0] == "attr" and e.a[1][2] in MUTATORS and not (e.a[1][2] == "append" and strip_mut(e.a[1][1]) == carried):
+                        ok = False
+                for other, (op, oposts) in info.carried.items():
+                    if other != name and bp.env.get(other, ("carried", other, uid)) != ("carried", other, uid):
+                        ok = False
+                rows.append((bp, elt))
+            if not ok or not rows or all(e is None for _, e in rows):
+                continue
+            cuid = self.uid()
+            tgt = st.target
+            bound = ("bound", unparse(tgt), cuid)
+
+            def rebind(t):
+                if not isinstance(t, tuple) or not t:
+                    return t
+                if not isinstance(t[0], str):
+                    return tuple(rebind(x) for x in t)
+                if t[0] == "loopvar" and t[1] == uid:
+                    out = bound
+                    for i in t[3]:
+                        out = ("sub", out, ("const", i))
+                    return out
+                if t[0] in ("const", "param", "global", "builtin"):
+                    return t
+                return tuple(rebind(x) if isinstance(x, tuple) else x for x in t)
+
+            comp = None
+            if len(rows) == 1 and not rows[0][0].conds:
+                comp = ("comp", "list", cuid, rebind(rows[0][1]), ((bound, info.iter, ()),))
+            elif len(rows) == 2 and len(rows[0][0].conds) == 1 and len(rows[1][0].conds) == 1 and rows[0][0].conds[0][0] == rows[1][0].conds[0][0] and rows[0][0].conds[0][1] != rows[1][0].conds[0][1]:
+                (a, ea), (b, eb) = rows
+                if not a.conds[0][1]:
+                    (a, ea), (b, eb) = (b, eb), (a, ea)
+                c = a.conds[0][0]
+                if ea is not None and eb is not None:
+                    comp = ("comp", "list", cuid, ("ifexp", rebind(c), rebind(ea), rebind(eb)), ((bound, info.iter, ()),))
+                elif ea is not None:
+                    comp = ("comp", "list", cuid, rebind(ea), ((bound, info.iter, (rebind(c),)),))
+                else:
+                    comp = ("comp", "list", cuid, rebind(eb), ((bound, info.iter, (("unop", "not", rebind(c)),)),))
+            if comp is None:
+                continue
+            self.comps[cuid] = (st, comp)
+            if pre_t == ("list", ()):
+                p.env[name] = comp
+            else:
+                p.env[name] = ("mut", pre_t, "extend", (comp,))
+            syn = Effect("call", ("call", ("attr", pre_t, "extend"), (comp,), ()), node=st, maybe=False)
+            syn.origin = "synthetic"
+            p.effects.append(syn)
+            info.accumulates = getattr(info, "accumulates", {})
+            info.accumulates[name] = comp
+
     def s_For(self, st, p, loops):
+        if isinstance(st.iter, (ast.Constant, ast.Tuple, ast.List)) and not st.orelse:
+            elems = None
+            if isinstance(st.iter, ast.Constant) and isinstance(st.iter.value, str) and 0 < len(st.iter.value) <= 4:
+                elems = [ast.Constant(value=c) for c in st.iter.value]
+            elif isinstance(st.iter, (ast.Tuple, ast.List)) and 0 < len(st.iter.elts) <= 4 and all(isinstance(e, ast.Constant) for e in st.iter.elts):
+                elems = list(st.iter.elts)
+            has_jump = any(isinstance(n, (ast.Break, ast.Continue)) for b in st.body for n in ast.walk(b))
+            if elems is not None and not has_jump:
+                # `for bit in "01": body`  ==  body[bit="0"]; body[bit="1"]
+                paths = [p]
+                for c in elems:
+                    asg = ast.Assign(targets=[st.target], value=c)
+                    ast.copy_location(asg, st)
+                    ast.fix_missing_locations(asg)
+                    paths = self.block([asg] + list(st.body), paths, loops)
+                return paths
         return self._loop(st, p, loops, "for")
 
     s_AsyncFor = s_For
@@ -677,8 +921,18 @@ class Evaluator:
             kwargs = []
             for k in node.keywords:
                 kwargs.append((k.arg, ev(k.value)))
+            callee = self.resolve_package_callee(f, p)
+            if callee is not None and not any(a[0] == "star" for a in args) and not any(k is None for k, _ in kwargs):
+                args, kwargs = canonical_args(callee[0], callee[1], args, kwargs)
             t = ("call", f, tuple(args), tuple(kwargs))
             p.effects.append(Effect("call", t, node=node, maybe=maybe))
+            if callee is not None and self.inlinable(callee[0]):
+                stats = _INLINE_STATS.setdefault(id(self.p), {"ok": set(), "fail": set()})
+                r = NotImplemented if maybe else self.inline(callee[0], callee[1], t, p, node)
+                if r is not NotImplemented:
+                    stats["ok"].add(callee[0].qualname)
+                    return r
+                stats["fail"].add(callee[0].qualname)
             # mutation of a local container through a method
             if isinstance(node.func, ast.Attribute) and node.func.attr in MUTATORS and isinstance(node.func.value, ast.Name):
                 nm = node.func.value.id
@@ -779,6 +1033,136 @@ class Evaluator:
     def _elts(self, elts, p, maybe):
         return [self.expr(e, p, maybe) for e in elts]
 
+    # -- package callees: canonical arguments and inlining ----------------
+    def resolve_package_callee(self, f, p):
+        """(FunctionInfo, number of leading parameters bound implicitly) for a call of a package
+        function / method whose target is unambiguous, else None."""
+        prog = self.p
+        if f[0] == "global":
+            r = prog.resolve_module_name(prog.modules[f[1]], f[2])
+            if r and r[0] == "func":
+                return r[1], 0
+            return None
+        if f[0] == "attr":
+            b = f[1]
+            if b[0] == "global":
+                r = prog.resolve_module_name(prog.modules[b[1]], b[2])
+                if r and r[0] == "module":
+                    r2 = prog.resolve_module_name(r[1], f[2])
+                    if r2 and r2[0] == "func":
+                        return r2[1], 0
+                if r and r[0] == "class":
+                    m = r[1].find_method(f[2])
+                    if m is not None and not any(f[2] in sc.methods for sc in prog.subclasses(r[1])):
+                        return m, (1 if m.is_classmethod else 0)
+                return None
+            if b[0] == "param" and self.fn.cls is not None and self.fn.params and b[1] == self.fn.params[0] and not self.fn.is_staticmethod and not self.inline_stack:
+                m = self.fn.cls.find_method(f[2])
+                if m is None or m.is_abstract:
+                    return None
+                if any(f[2] in sc.methods for sc in prog.subclasses(self.fn.cls)):
+                    return None
+                if m.is_staticmethod:
+                    return m, 0
+                return m, 1
+        return None
+
+    def inlinable(self, callee):
+        if callee.name in ANCHORS or callee.name.startswith("__"):
+            return False
+        if callee is self.fn or callee.qualname in self.inline_stack:
+            return False
+        if len(self.inline_stack) >= 3:
+            return False
+        for n in ast.walk(callee.node):
+            if isinstance(n, (ast.Yield, ast.YieldFrom, ast.Await, ast.Global, ast.Nonlocal)):
+                return False
+            if isinstance(n, (ast.FunctionDef, ast.AsyncFunctionDef)) and n is not callee.node:
+                return False
+        if callee.vararg or callee.kwarg:
+            return False
+        return True
+
+    def callee_paths(self, callee):
+        key = (callee.qualname, len(self.inline_stack))
+        cache = _INLINE_CACHE.setdefault(id(self.p), {})
+        if key not in cache:
+            ev = Evaluator(self.p, callee, inline_stack=self.inline_stack + (self.fn.qualname, callee.qualname))
+            paths = [x for x in ev.run() if x.feasible()]
+            cache[key] = (paths, ev)
+        return cache[key]
+
+    def inline(self, callee, skip, call_term, p, node):
+        """Replace a call of a non-anchor package function by one of its paths (chosen by the
+        statement driver), with parameters substituted by the argument terms."""
+        try:
+            paths, ev = self.callee_paths(callee)
+        except AnalysisError:
+            return NotImplemented
+        if not paths or len(paths) > 64:
+            return NotImplemented
+        # bind
+        params = callee.params[skip:]
+        args, kwargs = call_term[2], call_term[3]
+        mapping = {}
+        if skip:
+            recv = call_term[1][1] if call_term[1][0] == "attr" else None
+            if recv is None:
+                return NotImplemented
+            mapping[("param", callee.params[0])] = recv
+        if len(args) > len(params):
+            return NotImplemented
+        for pn, a in zip(params, args):
+            mapping[("param", pn)] = a
+        for k, v in kwargs:
+            if k not in params and k not in callee.kwonly:
+                return NotImplemented
+            mapping[("param", k)] = v
+        for pn in list(params) + list(callee.kwonly):
+            if ("param", pn) not in mapping:
+                d = callee.defaults.get(pn)
+                if d is None:
+                    return NotImplemented
+                dq = Path({})
+                dev = Evaluator(self.p, callee, inline_stack=self.inline_stack + (callee.qualname,))
+                try:
+                    mapping[("param", pn)] = dev.expr(d, dq)
+                except AnalysisError:
+                    return NotImplemented
+        k = len(paths)
+        if k == 1:
+            idx = 0
+        else:
+            if p._cpos < len(p._choices):
+                idx = p._choices[p._cpos]
+                p._cpos += 1
+            else:
+                raise _NeedChoice(k)
+        cp = paths[idx]
+        sub = _Subst(mapping, self)
+        for t, pol, n in cp.conds:
+            p.conds.append((sub.term(t), pol, n))
+        for e in cp.effects:
+            ne = sub.effect(e)
+            ne.origin = getattr(e, "origin", None) or callee
+            p.effects.append(ne)
+        # mutations of arguments that are caller locals (list.extend on a parameter ...)
+        for pn, a_node in zip(params, getattr(node, "args", [])):
+            fin = cp.env.get(pn)
+            if fin is not None and fin[0] == "mut" and isinstance(a_node, ast.Name) and a_node.id in p.env:
+                p.env[a_node.id] = sub.term(fin)
+        for uid, li in ev.lambdas.items():
+            pass
+        if cp.result is None:
+            return NONE
+        kind, val, rnode = cp.result
+        if kind == "return":
+            return sub.term(val)
+        if kind == "raise":
+            p.result = ("raise", sub.term(val), rnode)
+            raise _PathEnded(p)
+        return NotImplemented
+
 
 class _IfExpFinder(ast.NodeVisitor):
     """First conditional expression of a statement that is evaluated at statement level
@@ -839,6 +1223,121 @@ def split_ifexp(st):
     ast.copy_location(node, st)
     ast.fix_missing_locations(node)
     return node
+
+
+class _NeedChoice(Exception):
+    def __init__(self, k):
+        self.k = k
+
+
+class _PathEnded(Exception):
+    def __init__(self, path):
+        self.path = path
+
+
+_INLINE_CACHE = {}
+_INLINE_STATS = {}
+
+# functions the rules refer to by name: never inlined (every other package function is a helper
+# whose extraction or removal must not change any verdict, so calls to it are inlined, depth <= 3)
+ANCHORS = {
+    "_anonymize_bits", "_deanonymize_bits", "anonymize", "deanonymize", "_generate_bit_from_hash", "should_anonymize", "_is_mask",
+    "make_addr", "make_addr_from_int", "get_addr_pattern", "_ip_to_str", "dump_to_file", "_anonymize_match", "anonymize_ip_addr",
+    "replace_matching_item", "_anonymize_value", "_extract_enclosing_text", "_check_sensitive_item_format", "_split_line",
+    "generate_default_sensitive_item_regexes", "anonymize_as_numbers", "get_as_number_pattern", "_generate_as_number_replacement",
+    "_generate_as_number_regex", "_generate_as_number_replacement_map", "_lookup_anon_word", "_get_or_generate_sensitive_word_replacement",
+    "_generate_sensitive_word_regex", "_generate_conflicting_reserved_word_list", "juniper_decrypt", "juniper_nonrandom_encrypt",
+    "_gap", "_gap_decode", "_gap_encode", "_nibble", "_fixedc", "anonymize_files", "anonymize_io", "anonymize_file", "_mkdirs",
+    "main", "_parse_args", "host_bits",
+}
+
+
+def canonical_args(callee, skip, args, kwargs):
+    """Keyword arguments of a call to a package function moved to their positional slot
+    (as far as the positional prefix stays contiguous)."""
+    params = callee.params[skip:]
+    pos = list(args)
+    kw = dict(kwargs)
+    if len(pos) > len(params):
+        return args, kwargs
+    while len(pos) < len(params) and params[len(pos)] in kw:
+        pos.append(kw.pop(params[len(pos)]))
+    rest = tuple((k, v) for k, v in kwargs if k in kw)
+    return pos, list(rest)
+
+
+class _Subst:
+    """Substitutes parameter leaves by argument terms and renames loop / lambda / comprehension ids
+    (each inlined instance gets fresh ids)."""
+
+    def __init__(self, mapping, evaluator):
+        self.mapping = mapping
+        self.ev = evaluator
+        self.uids = {}
+        self.loops = {}
+
+    def uid(self, u):
+        if u not in self.uids:
+            self.uids[u] = self.ev.uid()
+        return self.uids[u]
+
+    def term(self, t):
+        if t is None or not isinstance(t, tuple) or not t:
+            return t
+        if not isinstance(t[0], str):
+            return tuple(self.term(x) for x in t)
+        tag = t[0]
+        if tag == "param":
+            return self.mapping.get(t, t)
+        if tag in ("const", "global", "builtin", "unknown", "unbound"):
+            return t
+        if tag == "loopvar":
+            return ("loopvar", self.uid(t[1]), self.term(t[2]), t[3])
+        if tag in ("carried", "loopout", "bound", "exc"):
+            return (tag, t[1], self.uid(t[2]))
+        if tag in ("inloop", "loopbreak"):
+            return (tag, self.uid(t[1]))
+        if tag == "except":
+            return ("except", self.uid(t[1]), self.term(t[2]), t[3])
+        if tag == "lambda":
+            return ("lambda", self.uid(t[1]), t[2], self.term(t[3]))
+        if tag == "comp":
+            return ("comp", t[1], self.uid(t[2]), self.term(t[3]), tuple((self.term(g[0]), self.term(g[1]), tuple(self.term(c) for c in g[2])) for g in t[4]))
+        if tag == "slice":
+            return ("slice",) + tuple(self.term(x) if isinstance(x, tuple) else x for x in t[1:])
+        out = [tag]
+        for x in t[1:]:
+            out.append(self.term(x) if isinstance(x, tuple) else x)
+        return tuple(out)
+
+    def effect(self, e):
+        if e.kind in ("loop", "loop_partial"):
+            ne = Effect(e.kind, self.loop(e.a), node=e.node, maybe=e.maybe)
+        else:
+            ne = Effect(e.kind, self.term(e.a) if isinstance(e.a, tuple) else e.a, self.term(e.b) if isinstance(e.b, tuple) else e.b,
+                        self.term(e.c) if isinstance(e.c, tuple) else e.c, node=e.node, maybe=e.maybe)
+        ne.origin = getattr(e, "origin", None)
+        return ne
+
+    def path(self, bp):
+        q = Path({k: self.term(v) for k, v in bp.env.items()}, [(self.term(t), pol, n) for t, pol, n in bp.conds], [self.effect(e) for e in bp.effects])
+        if bp.result is not None:
+            q.result = (bp.result[0], self.term(bp.result[1]) if isinstance(bp.result[1], tuple) else bp.result[1], bp.result[2])
+        return q
+
+    def loop(self, li):
+        if li.uid in self.loops:
+            return self.loops[li.uid]
+        nl = LoopInfo(self.uid(li.uid), li.kind, li.node)
+        self.loops[li.uid] = nl
+        nl.iter = self.term(li.iter) if li.iter is not None else None
+        nl.test = self.term(li.test) if li.test is not None else None
+        nl.target = li.target
+        nl.has_else = li.has_else
+        nl.body_paths = [self.path(bp) for bp in li.body_paths]
+        nl.carried = {n: (self.term(pre), [self.term(x) for x in posts]) for n, (pre, posts) in li.carried.items()}
+        self.ev.loops[nl.uid] = nl
+        return nl
 
 
 def bp_result_term(bp):
